@@ -253,7 +253,19 @@ def gen_case(r, family, prof=None, ds=None, le=None):
         # (a pickle is loaded into a Python-AST wrapper, so it is only ever compared with another pickle)
         ta = r.choice(FILE_TYPES)
         tb = ta if ta == "pickle" else r.choice([t for t in FILE_TYPES if t != "pickle"])
-        return {"family": family, "a": a, "b": b, "ds": ds, "le": le, "ta": ta, "tb": tb}
+        c = {"family": family, "a": a, "b": b, "ds": ds, "le": le, "ta": ta, "tb": tb}
+        if r.random() < 0.15 and ta != "pickle":
+            # streams of several YAML documents, some of them empty (null), changed somewhere behind the empty one
+            n = r.randint(3, 5)
+            docs = [formats.common_data(r, 2, False) for _ in range(n)]
+            for i in r.sample(range(n), r.randint(1, 2)):
+                docs[i] = None
+            other = copy.deepcopy(docs)
+            j = r.randrange(n)
+            other[j] = formats.common_data(r, 2, False) if other[j] is None or r.random() < 0.5 else formats.mutate_common(r, other[j]) \
+                if isinstance(other[j], (dict, list)) else "changed"
+            c.update(a=docs, b=other, ta="yaml", tb="yaml", va=1, vb=1 + 5 * r.randrange(4))   # variant % 5 == 1: multi-document
+        return c
     if family in ("plist", "dataclass", "pyobj"):
         p = gen.Profile("plist", strings="alpha", bool_with_01=False, numeric_strings=False, none=False, big_ints=False,
                         floats=True)
@@ -326,9 +338,9 @@ def build(case):
     if fam == "file":
         import graphtage
         from gv import formats
-        def load(doc, t):
-            return graphtage.FILETYPES_BY_TYPENAME[t].build_tree(tmpfile(formats.write(t, doc), formats.EXT[t]), opts)
-        return load(a, case.get("ta", "json")), load(b, case.get("tb", "json"))
+        def load(doc, t, variant):
+            return graphtage.FILETYPES_BY_TYPENAME[t].build_tree(tmpfile(formats.write(t, doc, variant=variant), formats.EXT[t]), opts)
+        return load(a, case.get("ta", "json"), case.get("va")), load(b, case.get("tb", "json"), case.get("vb"))
     if fam == "basic":
         from graphtage.builder import BasicBuilder
         return BasicBuilder(opts).build_tree(dec(a)), BasicBuilder(opts).build_tree(dec(b))
